@@ -1358,7 +1358,10 @@ def set_instantaneous_absorption(model: Model):
         if depot:
             to_comp, _ = cs.get_compartment_outflows(depot)[0]
             cb = CompartmentalSystemBuilder(cs)
-            cb.set_dose(to_comp, depot.doses[0])
+            if depot.doses:
+                to_comp = cb.set_dose(to_comp, depot.doses[0])
+            for from_comp, rate in cs.get_compartment_inflows(depot):
+                cb.add_flow(from_comp, to_comp, rate)
             ka = cs.get_flow(depot, cs.central_compartment)
             cb.remove_compartment(depot)
             symbols = ka.free_symbols
